@@ -1,18 +1,40 @@
-"""C05 — the report does not depend on the schedule: N threads equals one thread."""
+"""C05 — the report does not depend on the schedule: N threads equals one thread.
+
+Streams
+  C05.run    generated projects through the REAL runner with N threads and forced completion orders, replayed on the run
+             acceptor and compared by the oracle with the 1-thread run of the same project.
+  C05.desc   the matching layer under line-level pre-emption: 2..4 real threads, each a test of one real Session, perform
+             check_that / require_that / assert_that / check_that_in with real matchers (not_(), composites, user-defined
+             Matcher subclasses whose build_description applies the transformer several times) while the sys.settrace line
+             scheduler pre-empts between any two source lines of lemoncheesecake/matching/**; oracle: every thread records
+             exactly the checks (description, outcome, details) it records when the same calls are made by ONE thread;
+             model: the recorded descriptions are Matcher.checkDescription (drivers/C17.lean) and no
+             MatcherDescriptionTransformer object is touched by two threads (the hypothesis of LccModel.C05Desc).
+"""
+import os
+import shutil
+import tempfile
+import threading
+
 import common as C
 from props._runcommon import RUN_TRUSTED, RUN_ASSUMPTIONS, PropRunStream
 from run import selftest as W
 from run import witnesses2 as W2
 
 PROPERTY = "C05"
-LEAN_MODULES = ["LccModel.Props.C05", "LccModel.Props.C05Run"]
-PROPS_FILES = ["LccModel/Props/C05.lean", "LccModel/Props/C05Run.lean"]
-NAMESPACES = {"LccModel/Props/C05.lean": "LccModel.C05", "LccModel/Props/C05Run.lean": "LccModel.C05Run"}
+LEAN_MODULES = ["LccModel.Props.C05", "LccModel.Props.C05Run", "LccModel.Props.C05Desc",
+                "LccModel.Model.MatcherJson", "LccModel.Proto"]        # the last two: what drivers/C17.lean (stream C05.desc) imports
+PROPS_FILES = ["LccModel/Props/C05.lean", "LccModel/Props/C05Run.lean", "LccModel/Props/C05Desc.lean"]
+NAMESPACES = {"LccModel/Props/C05.lean": "LccModel.C05", "LccModel/Props/C05Run.lean": "LccModel.C05Run",
+              "LccModel/Props/C05Desc.lean": "LccModel.C05Desc"}
 DRIVER = "drivers/Run.lean"
-TRUSTED_BASE = RUN_TRUSTED + ["every N-thread run is compared with a 1-thread run of the same project by the oracle (timestamp-free normal forms, attachments by content)"]
+TRUSTED_BASE = RUN_TRUSTED + ["C05.sched: the 'real stream' of a run is what the recording event manager saw in fire(): event.time (rounded to ms), event.thread_id, the raw attachment name attachments/%04d_name (harness/run/observe.py `fire_raw`, `att_names`; harness/props/c05.py `real_stream`). The harness's re-labelling (times := positions, one thread id per (result location, real thread), the 1-thread events matched onto the N-thread ones) is NOT trusted: the verified boolean nThreadsCheckB checks that the re-labelled streams are the real ones up to a thread-id table (injective on (location, thread id) pairs, or lookup-preserving where CPython re-used thread idents), times and attachment counters, and C05.n_threads_equals_one_thread carries the conclusion back to the real streams", "every N-thread run is compared with a 1-thread run of the same project by the oracle (timestamp-free normal forms, attachments by content)",
+                              "hand-written models Model/Matcher.lean (descriptions, shared with C16/C17) and Model/Interleave.lean (M12c: threads taking atomic steps on a heap of "
+                              "MatcherDescriptionTransformer objects); stream C05.desc: harness/props/c05.py + harness/sched/linesched.py (pre-emption between source lines of "
+                              "lemoncheesecake/matching/**, not inside a line); the transformer objects a thread applies or writes are observed through the class's own __call__ / __setattr__"]
 ASSUMPTIONS = RUN_ASSUMPTIONS + ["schedule-independent features only (profile 'independent': no Abort*, no --stop-on-failure, no per-thread fixtures); sibling ranks pairwise distinct (declared tests always have distinct ranks; tests added with add_test_into_suite get one since fix a149e47)"]
-RULE = 'generated project (harness/run/gen.py) × nb_threads 1..8 × gate strategy (off/fifo/lifo/random) forcing completion orders; non-trivial = ≥ 2 tests, ≥ 1 body entered, ≥ 8 events; distinct = hash of the case (project + schedule parameters); C05 additionally needs N ≥ 2 and a completion order that differs from the declaration order'
-EXPLANATION = "The writer's result is invariant under swaps of independent events and the rank-sorted view removes arrival order under distinct sibling ranks (Lean theorems); every N-thread run is replayed on the composed model (whose per-task outputs are functions of the project, not of the schedule) and compared by the oracle with the 1-thread run."
+RULE = 'C05.desc: 2..4 real threads × 1..5 checks each (check_that / require_that / assert_that / check_that_in; matcher expressions of harness/gen/matchers.py incl. not_, composites, user-defined Matcher subclasses under not_/composites) under the seeded line scheduler over lemoncheesecake/matching/**; non-trivial = the recorded line trace switches threads inside the matching layer and ≥ 2 threads recorded a check.  C05.run / C05.sched: generated project (harness/run/gen.py) × nb_threads 1..8 × gate strategy (off/fifo/lifo/random) forcing completion orders; non-trivial = ≥ 2 tests, ≥ 1 body entered, ≥ 8 events; distinct = hash of the case (project + schedule parameters); C05 additionally needs N ≥ 2 and a completion order that differs from the declaration order'
+EXPLANATION = "Description building by several threads at once: threads that only touch transformer objects of their own compute under any schedule what they compute alone (LccModel.C05Desc, generic over the threads' code, instantiated on in-place negating description programs, refuted for a shared transformer); the hypothesis is observed on every real call. n_threads_equals_one_thread: the REAL streams of an N-thread run and of a 1-thread run (real thread ids, times, attachment names), both inside the discipline, whose re-labelled versions (thread ids through tables injective on (location, thread id) pairs or lookup-preserving; times and attachment counters changed, zero-ness of step-end times kept) have the same events and order every two dependent events alike, fold to reports with the same content up to timestamps and, under distinct sibling ranks, equal rank-sorted views up to timestamps (eraseTimes). Ingredients: projection lemma + swap-equivalence (report_independent_of_schedule), the writer commutes with re-labellings of the labels it only copies (only_timestamps_differ), thread ids are only keys of active_steps (thread_ids_are_only_keys). All hypotheses are decided by the verified boolean nThreadsCheckB on every pair (N-thread run, 1-thread run) of real fired streams (stream C05.sched). Every N-thread run is also replayed on the composed model (whose per-task outputs are functions of the project, not of the schedule) and compared by the oracle with the 1-thread run."
 
 
 def witness(title_prefix):
@@ -57,6 +79,581 @@ class Run(PropRunStream):
         return case
 
 
+import re as _re
+from gen import reports as _R
+from run import observe as _O
+
+_ATT = _re.compile(r"^(attachments/)\d{4}_")
+
+
+def _key(e):
+    """what identifies an event across two schedules of one run: everything but thread id, time and the global
+    attachment counter"""
+    d = {k: v for k, v in e.items() if k not in ("tid", "t")}
+    if d.get("e") == "att" and isinstance(d.get("file"), str):
+        d["file"] = _ATT.sub(r"\1", d["file"])
+    return C.case_hash(d)
+
+
+def match(base, ref):
+    """for every event of `base` (1-thread run) the index of the event of `ref` (N-thread run) with the same key and the same
+    occurrence number; None when the two runs did not fire the same events.  (An untrusted matching: what is built from it
+    is checked by the verified boolean.)"""
+    pool = {}
+    for i, e in enumerate(ref):
+        pool.setdefault(_key(e), []).append(i)
+    out = []
+    for e in base:
+        lst = pool.get(_key(e))
+        if not lst:
+            return None
+        out.append(lst.pop(0))
+    return out if not any(pool.values()) else None
+
+
+def labels(real_n, real_1, m):
+    """thread-id tables for the two real streams: one label per class of (result location, real thread id) pairs, two pairs
+    being in one class when a matched pair of events connects them.  Without thread-ident re-use this is one label per
+    (location, real thread) of the N-thread run and the 1-thread pairs get the label of their matching pair; CPython re-uses
+    the ident of an ended thread, so either run may identify two lcc.Threads (run one after the other) that the other run
+    tells apart — the classes then merge their ids in the run that separates them."""
+    parent = {}
+
+    def find(x):
+        parent.setdefault(x, x)
+        while parent[x] != x:
+            parent[x] = parent[parent[x]]
+            x = parent[x]
+        return x
+    pair = lambda side, e: (side, C.case_hash(e.get("loc")), e["tid"])
+    for e in real_n:
+        if "tid" in e:
+            find(pair("N", e))
+    if m is not None:
+        for e1, i in zip(real_1, m):
+            if "tid" in e1:
+                parent[find(pair("1", e1))] = find(pair("N", real_n[i]))
+    ids, tabs = {}, {"N": [], "1": []}
+    for side, stream in (("N", real_n), ("1", real_1 if m is not None else [])):
+        seen = set()
+        for e in stream:
+            if "tid" in e and pair(side, e) not in seen:
+                seen.add(pair(side, e))
+                tabs[side].append([e["loc"], e["tid"], ids.setdefault(find(pair(side, e)), len(ids) + 1)])
+    return tabs["N"], tabs["1"]
+
+
+def real_stream(o):
+    """the fired events AS THE WRITER RECEIVES THEM: the event's own thread_id and time (ms), the raw attachment file name
+    (`attachments/%04d_name`) — the recorder's canonical trace has thread numbers, t = 0 and un-prefixed names instead"""
+    raw_names = {i: n for i, n in o.get("att_names", [])}
+    out, k = [], 0
+    for i, r in enumerate(o["trace"]):
+        if r[0] != "fire":
+            continue
+        e = dict(r[2])
+        t, tid = o["fire_raw"][k]
+        k += 1
+        e["t"] = t
+        if "tid" in e:
+            e["tid"] = tid
+        if i in raw_names:
+            e["file"] = raw_names[i]
+        out.append(e)
+    return out
+
+
+class Sched(PropRunStream):
+    """The hypotheses of `C05.n_threads_equals_one_thread`, checked by the VERIFIED boolean `nThreadsCheckB`
+    (Lemmas/WriterNThreads.lean, soundness theorem `C05.n_threads_check_sound`) on every pair (N-thread run, 1-thread run) of
+    REAL fired streams — real thread ids, real times, raw attachment names:
+      * both real streams are handled without error within the (strengthened) discipline;
+      * the harness's re-labelled streams a, b ARE the real streams with thread ids re-labelled through the two tables it
+        sends along (each injective on the (location, thread id) pairs of its stream, or at least keeping every lookup of
+        active_steps on the same binding: CPython re-uses the idents of ended threads, so a table may merge the ids of two
+        lcc.Threads that ran one after the other), up to times and attachment counters;
+      * a, b pass `scheduleCheckB`: same events, no event twice, every two dependent events in the same order."""
+    name = "C05.sched"
+    prop = "C05"
+    driver = "drivers/C05.lean"
+    profile = "independent"
+    oracles = ()
+    threads = (2, 2, 3, 4, 8)
+    strategies = ("fifo", "lifo", "random", "random")
+    quick_cases = 90
+    quick_seconds = 25
+    thorough_cases = 900
+    thorough_seconds = 250
+    max_events = 170
+    corpus = [witness("(control) distinct ranks")] + W2.CONTROLS[:1]
+
+    def gen(self, rng, i):
+        case = super().gen(rng, i)
+        case["project"] = distinct_ranks(case["project"])
+        return case
+
+    def impl(self, case):
+        obs = _O.run_project(case["project"], strategy=case["strategy"], gate_seed=case["gseed"])
+        base = _O.run_project(dict(case["project"], nb_threads=1), strategy="off")
+        fired = lambda o: [r[2] for r in o["trace"] if r[0] == "fire"]
+        return {"outcome": obs["outcome"], "outcome1": base["outcome"], "fired": fired(obs), "fired1": fired(base),
+                "real": real_stream(obs), "real1": real_stream(base), "trace": [], "report": obs.get("report")}
+
+    def oracle(self, case, obs):
+        return []           # the statement-level comparison of the two reports is C05.run's oracle
+
+    def request(self, case, obs):
+        if "returned" not in obs["outcome"] or "returned" not in obs["outcome1"]:
+            return None
+        if len(obs["fired"]) > self.max_events:
+            return None
+        # the re-labelling: thread id := one id per class of (result location, real thread) pairs (`labels`) — a worker that
+        # runs two tests one after the other is two "threads" for the writer, whose only use of the id is the key of the
+        # open step —, time := position in the N-thread stream (events must be distinguishable); the 1-thread events are
+        # replaced by the matching re-labelled N-thread events.  tabN / tab1 are the two thread-id tables, explicitly.
+        m = match(obs["real1"], obs["real"])
+        tab_n, tab_1 = labels(obs["real"], obs["real1"], m)
+        rho_n = {(C.case_hash(l), t): k for l, t, k in tab_n}
+        a = []
+        for i, e in enumerate(obs["real"]):
+            e = dict(e, t=i + 1)
+            if "tid" in e:
+                e["tid"] = rho_n[(C.case_hash(e.get("loc")), e["tid"])]
+            a.append(e)
+        if m is None:
+            b = [dict(e, t=i + 1) for i, e in enumerate(obs["real1"])]      # not the same events: the check says so
+        else:
+            b = [a[i] for i in m]
+        return {"realN": _R.wire(obs["real"]), "real1": _R.wire(obs["real1"]), "a": _R.wire(a), "b": _R.wire(b),
+                "tabN": _R.wire(tab_n), "tab1": _R.wire(tab_1)}
+
+    def compare(self, case, obs, ans):
+        if "error" in ans:
+            return "model error: " + str(ans["error"])
+        if not ans["check"]:
+            return ("the two schedules do not satisfy the hypotheses of C05.report_independent_of_schedule: nodup=%s perm=%s "
+                    "dependent-order=%s disciplined=%s first offending pair: %s"
+                    % (ans["nodup"], ans["perm"], ans["order"], ans["disciplined"], _R.unwire(ans["bad_pair"])))
+        if not ans["n_threads_check"]:
+            return ("the real streams do not satisfy the hypotheses of C05.n_threads_equals_one_thread: real N-thread stream "
+                    "disciplined=%s, real 1-thread stream disciplined=%s, thread-id table injective or lookup-preserving N=%s 1=%s, re-labelled "
+                    "stream = real stream re-labelled (up to times / attachment counters) N=%s 1=%s; first difference: %s"
+                    % (ans["disciplined_realN"], ans["disciplined_real1"], ans["tid_ok_N"], ans["tid_ok_1"], ans["labels_N"],
+                       ans["labels_1"], _R.unwire(ans["labels_N_diff"] or ans["labels_1_diff"])))
+        if not ans["views_equal"] or not ans["disciplined_b"] or not ans["real_views_equal"]:
+            return "the check holds but the folded views differ (would contradict the theorem)"
+        return None
+
+    def nontrivial(self, case, obs):
+        return len(obs["fired"]) >= 8 and obs["fired"] != obs["fired1"]
+
+    def features(self, case, obs):
+        n = len(obs["fired"])
+        f = ["events=%s" % ("<=40" if n <= 40 else "41-100" if n <= 100 else "101-170" if n <= 170 else ">170 (not checked)"),
+             "threads=%d" % case["project"]["nb_threads"]]
+        same = [dict(e, tid=0, t=0) for e in obs["fired"]] == [dict(e, tid=0, t=0) for e in obs["fired1"]]
+        f.append("same-order-as-1-thread" if same else "reordered")
+        locs = {}
+        for e in obs.get("real", []):
+            if "tid" in e:
+                locs.setdefault(e["tid"], set()).add(C.case_hash(e.get("loc")))
+        f.append("a-real-thread-id-at-several-locations" if any(len(v) > 1 for v in locs.values()) else "one-location-per-thread-id")
+        m = match(obs.get("real1", []), obs.get("real", []))
+        if m is not None:
+            tab_n, tab_1 = labels(obs["real"], obs["real1"], m)
+            if len({k for _, _, k in tab_n}) < len(tab_n) or len({k for _, _, k in tab_1}) < len(tab_1):
+                f.append("thread-ident-reuse: a table merges two ids")
+        if any(e.get("e") == "att" for e in obs["fired"]):
+            f.append("attachments")
+        return f
+
+
+# =================================================================================================
+# C05.desc — concurrent check_that under line-level pre-emption
+# =================================================================================================
+
+_HARD_TIMEOUT = 60.0
+CUSTOM_SENTENCES = ["to be in the deny list 'default'", "to have a valid signature", "to match the remote schema", "can be resolved",
+                    "to resolve somewhere", "is fine"]
+
+
+def _contains_custom(e):
+    from gen import matchers as G
+    return e[0] == "custom" or any(_contains_custom(x) for x in (G.sub_exprs(e) if e[0] != "custom" else [e[3]]))
+
+
+def to_matcher_x(e):
+    """Expr (harness/gen/matchers.py) extended with ["custom", sentence, n, inner]: a user-defined Matcher subclass — a
+    documented extension point — whose build_description assembles its sentence in n + 1 applications of the transformer it
+    was handed (a slow description, e.g. looked up remotely) and whose matches() is the inner matcher's"""
+    import lemoncheesecake.matching as M
+    from gen import matchers as G
+    from lemoncheesecake.matching.matcher import Matcher
+
+    if not _contains_custom(e):
+        return G.to_matcher(e)
+    c = e[0]
+    if c == "custom":
+        inner = to_matcher_x(e[3])
+        sentence, n = e[1], e[2]
+
+        class RemoteLookup(Matcher):
+            def build_description(self, transformation):
+                for _ in range(n):
+                    transformation("to be looked up")        # intermediate lookups: the result is dropped
+                return transformation(sentence)
+
+            def matches(self, actual):
+                return inner.matches(actual)
+        return RemoteLookup()
+    if c in ("not_", "is_"):
+        return getattr(M, c)(to_matcher_x(e[1]))
+    if c == "hide":
+        return to_matcher_x(e[1]).hide_result_details()
+    if c in ("all_of", "any_of"):
+        return getattr(M, c)(*[G.to_py(a[1]) if a[0] == "val" else to_matcher_x(a) for a in e[1]])
+    raise ValueError("custom matcher under %s is not generated" % c)
+
+
+def model_expr(e):
+    """the same expression in the model's syntax: the user-defined matcher reads like `inner.override_description(sentence)`
+    (one sentence through the transformer, the inner matcher's result)"""
+    if e[0] == "custom":
+        return ["override", e[1], model_expr(e[3])]
+    if not _contains_custom(e):
+        return e
+    if e[0] in ("not_", "is_", "hide"):
+        return [e[0], model_expr(e[1])]
+    return [e[0], [model_expr(a) for a in e[1]]]
+
+
+def _matching_files():
+    import lemoncheesecake.matching as M
+    root = os.path.dirname(os.path.abspath(M.__file__))
+    out = []
+    for d, _, fs in os.walk(root):
+        out += [os.path.join(d, f) for f in fs if f.endswith(".py")]
+    return sorted(out)
+
+
+def _perform(o):
+    """one operation of a test body -> what it did to its caller"""
+    from gen import matchers as G
+    from lemoncheesecake.exceptions import AbortTest
+    from lemoncheesecake.matching import assert_that, check_that, check_that_in, require_that
+    from props.c16 import _result_obs
+    m = to_matcher_x(o["expr"])
+    v = G.to_py(o["value"])
+    try:
+        if o["op"] == "check_in":
+            rs = check_that_in({"k": v}, "k", m, quiet=o["quiet"])
+            return {"returned": [_result_obs(lambda r=r: r) for r in rs]}
+        r = {"check": check_that, "require": require_that, "assert": assert_that}[o["op"]](o["hint"], v, m, quiet=o["quiet"])
+        return {"returned": _result_obs(lambda: r)}
+    except AbortTest:
+        return {"raised": "AbortTest"}
+    except Exception as e:  # noqa: BLE001 — classified
+        return {"raised": type(e).__name__}
+
+
+def run_checks(case, concurrent):
+    """the checks of every thread on one real Session: by k real threads under the line scheduler (`concurrent`), or the
+    same calls made by ONE thread, test after test.  -> per thread: [{"checks": [...], "result": …} per operation]"""
+    import random as _random
+    import lemoncheesecake.events as E
+    import lemoncheesecake.session as S
+    from gen import reports as R
+    from lemoncheesecake.matching.matcher import MatcherDescriptionTransformer as MDT
+    from lemoncheesecake.reporting import Report
+    from lemoncheesecake.testtree import BaseTest
+    from props import _session
+    from sched import linesched as LS
+
+    k = case["threads"]
+    lock = threading.Lock()
+    recorded = {}            # test name -> check events in firing order
+    tags = {}                # thread object -> tag
+    touched = []             # (transformer object, tag) — the objects are kept alive so that ids are not reused
+    line_rec = []
+
+    class RecEM(E.EventManager):
+        def fire(self, event):
+            if type(event).__name__ == "CheckEvent":
+                with lock:
+                    recorded.setdefault(event.location.node_hierarchy[-1], []).append(
+                        {"description": event.check_description, "ok": event.check_is_successful, "details": event.check_details})
+
+    def note(obj):
+        t = tags.get(threading.current_thread())
+        if t is not None:
+            with lock:
+                if not any(o is obj and u == t for o, u in touched):
+                    touched.append((obj, t))
+
+    orig_call = MDT.__call__
+
+    def rec_call(self, description):
+        note(self)
+        return orig_call(self, description)
+
+    def rec_setattr(self, name, value):
+        note(self)
+        object.__setattr__(self, name, value)
+
+    tmp = tempfile.mkdtemp(prefix="lccverif-c05d-")
+    old_inst = S.Session._instance
+    sched = None
+    results = {t: [] for t in range(k)}
+    try:
+        session = S.Session(RecEM.load(), tmp, Report())
+        S.Session._instance = session
+        MDT.__call__ = rec_call
+        MDT.__setattr__ = rec_setattr
+
+        def test_body(t, tag):
+            tags[threading.current_thread()] = tag
+            node = R._node_chain(["s", "t%d" % t], _session.md_of("t%d" % t, t), BaseTest)
+            session.start_test(node)
+            session.set_step("checks")
+            for j, o in enumerate(case["checks"][t]):
+                before = len(recorded.get("t%d" % t, []))
+                res = _perform(o)
+                with lock:
+                    results[t].append({"checks": list(recorded.get("t%d" % t, []))[before:], "result": res})
+            session.end_test(node)
+
+        if not concurrent:
+            def go():
+                for t in range(k):
+                    test_body(t, 0)
+        else:
+            ln = case["line"]
+            sched = LS.LineScheduler(_matching_files(), _random.Random(ln["seed"]), strategy=ln["strategy"], p=ln.get("p", 0.35),
+                                     depth=ln.get("depth", 3), steal_after=0.05, record=line_rec, tag_of=lambda th: tags.get(th, -1),
+                                     rendezvous=k)
+            start = threading.Barrier(k, timeout=10)
+
+            def worker(t):
+                tags[threading.current_thread()] = t
+                try:
+                    start.wait()
+                except threading.BrokenBarrierError:
+                    pass
+                test_body(t, t)
+
+            def go():
+                sched.install()
+                ths = [threading.Thread(target=worker, args=(t,), name="lccverif-desc%d" % t) for t in range(k)]
+                for th in ths:
+                    th.start()
+                for th in ths:
+                    th.join(40)
+        finished, _, exc = LS.run_with_timeout(go, _HARD_TIMEOUT)
+        if sched is not None:
+            sched.uninstall()
+        if not finished:
+            raise C.InfraError("C05.desc: hard time-out")
+        if exc is not None:
+            raise exc
+        shared = []
+        for i, (obj, t) in enumerate(touched):
+            others = sorted({u for o, u in touched if o is obj})
+            if len(others) > 1 and not any(o is obj for o, _ in touched[:i]):
+                shared.append({"threads": others, "state": [bool(getattr(obj, "conjugate", None)), bool(getattr(obj, "negative", None))]})
+        switches, last = 0, None
+        for tag, fname, _, _ in line_rec:
+            if fname == "<resume>":
+                continue
+            if last is not None and tag != last:
+                switches += 1
+            last = tag
+        return {"per_thread": [results[t] for t in range(k)], "shared_transformers": shared, "transformer_objects": len({id(o) for o, _ in touched}),
+                "switches": switches, "steals": 0 if sched is None else sched.steals, "points": 0 if sched is None else sched.points}
+    finally:
+        if sched is not None and sched.enabled:
+            sched.uninstall()
+        MDT.__call__ = orig_call
+        try:
+            del MDT.__setattr__
+        except AttributeError:
+            pass
+        S.Session._instance = old_inst
+        shutil.rmtree(tmp, ignore_errors=True)
+
+
+class Desc(C.Stream):
+    name = "C05.desc"
+    driver = "drivers/C17.lean"
+    quick_cases = 260
+    thorough_cases = 4000
+    quick_seconds = 25
+    thorough_seconds = 300
+    chunk = 40
+    _eq3 = ["equal_to", ["i", 3]]
+    corpus = [
+        # a negated user-defined matcher with a slow description in one test, plain successful checks in the others
+        {"threads": 2, "line": {"strategy": "random", "p": 0.5, "depth": 3, "seed": 1},
+         "checks": [[{"op": "check", "hint": "user", "value": ["s", "alice"], "quiet": False,
+                      "expr": ["not_", ["custom", "to be in the deny list 'default'", 4, ["equal_to", ["s", "bob"]]]]}],
+                    [{"op": "check", "hint": "count", "value": ["i", 3], "expr": _eq3, "quiet": False},
+                     {"op": "check_in", "hint": None, "value": ["i", 10], "expr": ["greater_than", ["i", 5]], "quiet": False},
+                     {"op": "require", "hint": "count", "value": ["i", 3], "expr": _eq3, "quiet": False}]]},
+        # negations everywhere: not_ over leaves, over composites, double negation, is_not_none, inside has_item
+        {"threads": 3, "line": {"strategy": "priority", "p": 0.35, "depth": 4, "seed": 2},
+         "checks": [[{"op": "check", "hint": "a", "value": ["i", 1], "expr": ["not_", ["not_", ["equal_to", ["i", 1]]]], "quiet": False},
+                     {"op": "assert", "hint": "b", "value": None, "expr": ["is_not_none"], "quiet": False}],
+                    [{"op": "check", "hint": None, "value": ["l", [["i", 1]]], "expr": ["has_item", ["not_", ["equal_to", ["i", 2]]]], "quiet": True},
+                     {"op": "check", "hint": "c", "value": ["i", 0],
+                      "expr": ["all_of", [["not_", ["greater_than", ["i", 1]]], ["custom", "to be fine by me", 2, ["anything"]]]], "quiet": False}],
+                    [{"op": "check_in", "hint": None, "value": ["s", "x"], "expr": ["not_", ["starts_with", "a"]], "quiet": False},
+                     {"op": "check", "hint": "d", "value": ["i", 5], "expr": ["any_of", [["equal_to", ["i", 5]], ["not_", ["is_none"]]]], "quiet": False}]]},
+        # minimised failing input of the seeded change C05-6 (module-level default transformer + Not flipping it in place)
+        {"threads": 2, "line": {"strategy": "random", "p": 0.6, "depth": 3, "seed": 3},
+         "checks": [[{"op": "check", "hint": "user", "value": ["i", 1], "quiet": False,
+                      "expr": ["not_", ["custom", "to be looked up", 6, ["equal_to", ["i", 2]]]]}] * 2,
+                    [{"op": "check", "hint": "count", "value": ["i", 3], "expr": _eq3, "quiet": False}] * 4]},
+    ]
+
+    def gen(self, rng, i):
+        from gen import matchers as G
+        from props.c16 import HINTS
+
+        def expr():
+            r = rng.random()
+            e = G.gen_expr(rng, rng.choice([1, 1, 2, 2, 3]))
+            if r < 0.25:
+                return e
+            custom = ["custom", rng.choice(CUSTOM_SENTENCES), rng.randint(0, 6), G.gen_leaf(rng)]
+            if r < 0.5:
+                return ["not_", e]
+            if r < 0.7:
+                return ["not_", custom]
+            if r < 0.8:
+                return custom
+            if r < 0.9:
+                return [rng.choice(["all_of", "any_of"]), [["not_", custom], e]]
+            return ["not_", ["not_", e]]
+        k = rng.choice([2, 2, 2, 3, 4])
+        checks = []
+        for _ in range(k):
+            ops = []
+            for _ in range(rng.randint(1, 5)):
+                e = expr()
+                ops.append({"op": rng.choice(["check", "check", "check", "require", "assert", "check_in"]), "hint": rng.choice(HINTS),
+                            "value": G.gen_actual(rng, model_expr(e)), "expr": e, "quiet": rng.random() < 0.2})
+            checks.append(ops)
+        return {"threads": k, "checks": checks,
+                "line": {"strategy": rng.choice(["random", "random", "priority"]), "p": rng.choice([0.2, 0.35, 0.6]),
+                         "depth": rng.randint(1, 5), "seed": rng.randrange(1 << 30)}}
+
+    def impl(self, case):
+        conc = run_checks(case, True)
+        base = run_checks(case, False)
+        return {"concurrent": conc["per_thread"], "one_thread": base["per_thread"], "shared_transformers": conc["shared_transformers"],
+                "transformer_objects": conc["transformer_objects"], "switches": conc["switches"], "steals": conc["steals"], "points": conc["points"]}
+
+    def oracle(self, case, obs):
+        fails = []
+        for t, (a, b) in enumerate(zip(obs["concurrent"], obs["one_thread"])):
+            for j, (x, y) in enumerate(zip(a, b)):
+                o = case["checks"][t][j]
+                if [c["description"] for c in x["checks"]] != [c["description"] for c in y["checks"]]:
+                    fails.append(C.Failure("C05/desc/check-description-differs-from-1-thread-run",
+                                           f"test t{t}, operation {j} ({o['op']} {o['expr']}): with {case['threads']} threads the recorded "
+                                           f"description is {[c['description'] for c in x['checks']]}, with 1 thread {[c['description'] for c in y['checks']]}"))
+                elif x["checks"] != y["checks"]:
+                    fails.append(C.Failure("C05/desc/check-differs-from-1-thread-run",
+                                           f"test t{t}, operation {j} ({o['op']}): {case['threads']} threads {x['checks']} vs 1 thread {y['checks']}"))
+                if x["result"] != y["result"]:
+                    fails.append(C.Failure("C05/desc/operation-outcome-differs-from-1-thread-run",
+                                           f"test t{t}, operation {j} ({o['op']}): {case['threads']} threads {x['result']} vs 1 thread {y['result']}"))
+            if len(a) != len(b):
+                fails.append(C.Failure("C05/desc/operations-lost", f"test t{t}: {len(a)} operations completed with threads, {len(b)} with 1 thread"))
+        seen, out = set(), []
+        for f in fails:
+            if f.signature not in seen:
+                seen.add(f.signature)
+                out.append(f)
+        return out
+
+    # ---- the model: descriptions are Matcher.checkDescription; no transformer object is touched by two threads ----------
+    def _flat(self, case):
+        return [(t, j, o) for t, ops in enumerate(case["checks"]) for j, o in enumerate(ops) if o["op"] != "check_in"]
+
+    def request(self, case, obs):
+        return {"ops": [{"op": o["op"], "expr": model_expr(o["expr"]), "value": o["value"], "hint": o["hint"], "quiet": o["quiet"]}
+                        for _, _, o in self._flat(case)]}
+
+    def compare(self, case, obs, ans):
+        if obs["shared_transformers"]:
+            return ("the no-shared-state hypothesis of LccModel.C05Desc does not hold on the real calls: a MatcherDescriptionTransformer "
+                    f"object was applied / written by the check_that calls of several threads: {obs['shared_transformers'][:3]}")
+        if "steps" not in ans:
+            return "model error: " + str(ans.get("error"))
+        for (t, j, o), m in zip(self._flat(case), ans["steps"]):
+            if j >= len(obs["concurrent"][t]):
+                return f"test t{t}: operation {j} did not complete"
+            x = obs["concurrent"][t][j]
+            if m["checks"] != x["checks"]:
+                return f"test t{t}, operation {j} ({o['op']} {o['expr']}): checks: model {m['checks']} vs {case['threads']} threads {x['checks']}"
+            if m["result"] != x["result"]:
+                return f"test t{t}, operation {j} ({o['op']}): result: model {m['result']} vs implementation {x['result']}"
+        return None
+
+    def nontrivial(self, case, obs):
+        return obs["switches"] > 0 and sum(1 for a in obs["concurrent"] if any(x["checks"] for x in a)) >= 2
+
+    def features(self, case, obs):
+        from gen import matchers as G
+        f = ["threads=%d" % case["threads"], "line=" + case["line"]["strategy"]]
+        if obs["switches"] > 0:
+            f.append("preempted-inside-the-matching-layer")
+        if obs["switches"] >= 20:
+            f.append("switches>=20")
+        if obs["steals"]:
+            f.append("steal")
+        for ops in case["checks"]:
+            for o in ops:
+                f.append("op:" + o["op"])
+                cs = G.constructors_of(model_expr(o["expr"]))
+                if "not_" in cs or "is_not_none" in cs:
+                    f.append("negated-matcher")
+                if _contains_custom(o["expr"]):
+                    f.append("user-defined-matcher")
+                    if o["expr"][0] == "not_" and o["expr"][1][0] == "custom":
+                        f.append("negated-user-defined-matcher")
+                if cs & {"all_of", "any_of"}:
+                    f.append("composite")
+        n_neg = sum(1 for ops in case["checks"] if any("not_" in G.constructors_of(model_expr(o["expr"])) for o in ops))
+        if n_neg >= 1 and len(case["checks"]) - n_neg >= 1:
+            f.append("one-test-negates-while-another-does-not")
+        for a in obs["concurrent"]:
+            for x in a:
+                r = x["result"]
+                f.append("result:" + ("raised:" + r["raised"] if "raised" in r else "returned"))
+        return sorted(set(f))
+
+    def shrink(self, case):
+        from gen import matchers as G
+        k = case["threads"]
+        if k > 2:
+            for t in range(k):
+                yield dict(case, threads=k - 1, checks=case["checks"][:t] + case["checks"][t + 1:])
+        for t, ops in enumerate(case["checks"]):
+            if len(ops) > 1:
+                for j in range(len(ops)):
+                    c = dict(case)
+                    c["checks"] = case["checks"][:t] + [ops[:j] + ops[j + 1:]] + case["checks"][t + 1:]
+                    yield c
+        for t, ops in enumerate(case["checks"]):
+            for j, o in enumerate(ops):
+                if not _contains_custom(o["expr"]):
+                    for e in G.shrink_expr(o["expr"]):
+                        c = dict(case)
+                        c["checks"] = case["checks"][:t] + [ops[:j] + [dict(o, expr=e)] + ops[j + 1:]] + case["checks"][t + 1:]
+                        yield c
+
+
 # ---- the declaration path: parametrized variants (one callback, one fixture signature) running concurrently -----------------
 from props._declrun import DeclRunStream, DECLRUN_TRUSTED, DECLRUN_RULE, normalise_project
 from props import _declrun_corpus as DC
@@ -78,7 +675,6 @@ class DeclRun(DeclRunStream):
     thorough_seconds = 300
     decl_opts = dict(p_group=0.75, p_base=0.3, p_shared=0.2)
     corpus = DC.C05_CORPUS
-
     p_start_gates = 0.35
 
     def prepare_project(self, project, rng=None):
@@ -93,4 +689,4 @@ RULE = RULE + "; " + DECLRUN_RULE
 
 
 def streams(ctx):
-    return [Run(), DeclRun()]
+    return [Run(), Sched(), Desc(), DeclRun()]
